@@ -11,7 +11,8 @@ LEAN_MODULES = ["NdInterp.Props.C14"]
 THEOREM_FILES = [("NdInterp/Props/C14.lean", "C14_")]
 RULE = ("every entry point with a buffer (interp_into, interp_array_into; Interp1D Linear/CubicSpline, Interp2D Bilinear), query ranks 0..3 "
         "static and dynamic, data ranks 1..4; buffer shapes: the required one, each axis -1 / +1, trailing axes permuted, leading (query) "
-        "axes permuted, one axis merged/split with equal element count, wrong rank (dynamic only); buffers are C/F/strided/reversed/"
+        "axes permuted, one axis merged/split with equal element count, shapes the required one broadcasts to (length-1 axis made longer, "
+        "extra leading axis), wrong rank (dynamic only); half of the groups query exactly on knots / grid lines; buffers are C/F/strided/reversed/"
         "permuted views and windows into a larger poisoned array. The runner reports poison left inside the view (`!unwritten`) and "
         "non-poison outside (`!outside`). Oracle: correct shape => Ok, nothing unwritten, nothing outside touched (values = model = "
         "allocating variant); any other shape => never Ok (panic, or OutOfBounds for interp_into with an out-of-range query) and nothing "
@@ -38,7 +39,12 @@ def wrong_shapes(rng, qshape, trailing, dyn):
     # equal element count, different factorisation
     if len(req) >= 2 and req[0] % 2 == 0 and req[0] > 0:
         s = list(req); s[0] //= 2; s[1] *= 2; out.append(s)
+    # shapes the required one broadcasts to: a length-1 axis made longer, extra leading axes (dynamic only)
+    for ax in range(len(req)):
+        if req[ax] == 1:
+            s = list(req); s[ax] = rng.choice([2, 3]); out.append(s)
     if dyn:
+        out.append([rng.choice([1, 2])] + req)
         out.append(req + [1])
         if len(req) >= 2:
             out.append([req[0] * req[1]] + req[2:])
@@ -71,6 +77,8 @@ def generate(rng, tier):
                 xs, ys = gen.axis_f(rng, nx, "uniform"), gen.axis_f(rng, ny, "random")
                 flat = [rng.uniform(-2, 2) for _ in range(gen.shape_size(shape))]
                 qx = [rng.uniform(xs[0], xs[-1]) for _ in range(nq)]; qy = [rng.uniform(ys[0], ys[-1]) for _ in range(nq)]
+            if rng.random() < 0.5:      # queries exactly on grid lines (shortcuts for sample points must keep the shape checks)
+                qx = [rng.choice(xs) for _ in qx]; qy = [rng.choice(ys) for _ in qy]
             mk = lambda e: i2_line(S, xs, ys, shape, flat, False, e, dtag=dtag, dlay=rng.choice(gen.LAYS_ND))
             qargs = (qx, qy)
         else:
@@ -82,6 +90,8 @@ def generate(rng, tier):
             else:
                 xs = gen.axis_f(rng, n, "random"); flat = [rng.uniform(-2, 2) for _ in range(gen.shape_size(shape))]
                 qs = [rng.uniform(xs[0], xs[-1]) for _ in range(nq)]
+            if rng.random() < 0.5:      # queries exactly on knots
+                qs = [rng.choice(xs) for _ in qs]
             strat = rng.choice([("lin", False), ("spl", False, "nak")])
             mk = lambda e: i1_line(S, xs, shape, flat, strat, e, dtag=dtag, dlay=rng.choice(gen.LAYS_ND))
             qargs = (qs,)
@@ -103,7 +113,7 @@ def generate(rng, tier):
         if nq >= 1:
             q1 = [a[0] for a in qargs]
             cases.append({"line": mk(e_into(S, q1, trailing, blay())), "meta": {"ok": True}})
-            for s in wrong_shapes(rng, [], trailing, dyn_d)[:3]:
+            for s in wrong_shapes(rng, [], trailing, dyn_d)[:8]:
                 if len(s) != len(trailing) and not dyn_d:
                     continue
                 cases.append({"line": mk(e_into(S, q1, s, blay())), "meta": {"ok": False}})
